@@ -587,6 +587,18 @@ theorem fold_retyped_witness :
 
 theorem fold_retyped_repaired : optimize Flags.repaired [] w0 t10 = .ok t10 := rfl
 
+/-- `I64f((7 % 2) * 3)`: only the right literal is retyped (`%` is not an arithmetic operation for the checker) -/
+def t10m : Node := .func ⟨⟨1, 0⟩, .num .int64⟩ "I64f"
+  [.binary (mI 13) "*" (.binary (mI 8) "%" (.int (mI 6) 7) (.int (mI 10) 2)) (.int ⟨⟨1, 15⟩, .num .int64⟩ 3)] false
+
+/-- (#10, found by the search) the folded literal takes the annotation of the *left* operand: `1 * int64(3)`
+    becomes the `int` literal 3, which `func(int64)` refuses at run time -/
+theorem fold_mixed_annotation_witness :
+    (∃ n', optimize Flags.asIs [] w0 t10m = .ok n' ∧ (Spec.run (cfg env10) none n').1 = .error .type_) ∧
+    (Spec.run (cfg env10) none t10m).1 = .ok (.int .int64 3) ∧
+    (∃ n', optimize Flags.repaired [] w0 t10m = .ok n' ∧ (Spec.run (cfg env10) none n').1 = .ok (.int .int64 3)) :=
+  ⟨⟨_, rfl, rfl⟩, rfl, ⟨_, rfl, rfl⟩⟩
+
 /-- `I64f(1)` with `I64f` registered as ConstExpr -/
 def t11 : Node := .func ⟨⟨1, 0⟩, .num .int64⟩ "I64f" [.int ⟨⟨1, 5⟩, .num .int64⟩ 1] false
 
